@@ -1,2 +1,12 @@
 import JominiModel.Props.C08
-#print axioms Jomini.Props.C08.C08_lexeme_ids_measured
+open Jomini.Props.C08
+#print axioms C08_lexeme_ids_measured
+#print axioms C08_codec
+#print axioms C08_codec_exclusions
+#print axioms C08_prefix_stable
+#print axioms C08_lexer_api
+#print axioms C08_Buffer_refines
+#print axioms C08_Buffer_refines_init
+#print axioms C08_stream_eq_lexer
+#print axioms C08_slice_eq_lexer
+#print axioms C08_stream_with_faults
